@@ -535,7 +535,8 @@ impl<T: SizedShape, L: LenShape> Shape for FlatVec<T, L> {
                 _ => <_ as Emplacer<Self>>::emplace_unchecked(flatty::flat_vec![x(0), x(1), x(2), x(3)], bytes),
             };
         }
-        if r % 3 == 2 && xs.len() <= 6 {
+        // (256 / 257 elements: one more than a u8 length type can count, with enough bytes for all of them)
+        if r % 3 == 2 && (xs.len() <= 6 || xs.len() == 256 || xs.len() == 257) {
             macro_rules! arr {
                 ($($n:literal),*) => {
                     match xs.len() {
@@ -547,7 +548,7 @@ impl<T: SizedShape, L: LenShape> Shape for FlatVec<T, L> {
                     }
                 };
             }
-            arr!(0, 1, 2, 3, 4, 5, 6);
+            arr!(0, 1, 2, 3, 4, 5, 6, 256, 257);
         }
         if r == 0xF5 {
             // an iterator whose size_hint is loose: (0, Some(len + 3)), yields exactly len items
